@@ -250,6 +250,9 @@ def run(project: Project, rep, tier: str):
                                                           f"the range setters (extent/resolution/mesh are not recomputed)")
         elif {ev["attr"] for ev in stores} >= {"birth_range", "pers_range"}:
             rep.discharged("GE-FIT", fit, fit.node, f"fit(skew={skew}) changes the geometry only through the two range setters")
+        elif not stores or I.unmodelled or I.lossy:
+            rep.unmodelled("GE-FIT", fit, fit.node, f"fit(skew={skew}): how the ranges are assigned could not be followed "
+                                                    f"(attribute stores seen: {sorted({ev['attr'] for ev in stores})})")
         else:
             rep.refuted("GE-FIT", fit, fit.node, f"fit(skew={skew}) does not assign both ranges "
                                                  f"({sorted({ev['attr'] for ev in stores})})")
